@@ -274,15 +274,17 @@ type envLeaf struct {
 }
 
 type envTypeGen struct {
-	r      *RNG
-	leaves []envLeaf
-	used   map[string]bool // documented names used so far (distinct flattened names are a precondition)
-	alias  bool
-	embed  bool            // embedded (anonymous) struct fields: their name adds no word unless tagged
-	colls  bool            // slices / arrays / maps of structs (sub-transformers)
-	np     []string        // names of the enclosing non-embedded fields
-	flat   map[string]bool // flattened Go names used so far (embedded structs share their parent's name space)
-	shorts int             // pflag shorthand letters handed out
+	r         *RNG
+	leaves    []envLeaf
+	used      map[string]bool // documented names used so far (distinct flattened names are a precondition)
+	alias     bool
+	embed     bool            // embedded (anonymous) struct fields: their name adds no word unless tagged
+	colls     bool            // slices / arrays / maps of structs (sub-transformers)
+	np        []string        // names of the enclosing non-embedded fields
+	flat      map[string]bool // flattened Go names used so far (embedded structs share their parent's name space)
+	shorts    int             // pflag shorthand letters handed out
+	empties   bool            // keep struct-typed fields whose struct has no exported field
+	emptyTags bool            // `dials:""` on struct-typed fields
 }
 
 func (g *envTypeGen) genStruct(depth int, path, words []string) reflect.Type {
@@ -312,7 +314,12 @@ func (g *envTypeGen) genStruct(depth int, path, words []string) reflect.Type {
 			sub := &envTypeGen{r: r, used: map[string]bool{}, alias: g.alias}
 			inner := sub.genStruct(depth-1, nil, nil)
 			if inner.NumField() == 0 {
-				continue
+				if !g.empties || f.Anonymous || !r.Chance(50) {
+					continue
+				}
+				// a struct without (exported) fields: it has no leaf and takes no flattened value - the fields around
+				// it, and in particular a parent that ENDS with it, must work as if it were not there
+				inner = []reflect.Type{reflect.TypeOf(struct{}{}), reflect.TypeOf(struct{ hidden int }{})}[r.Intn(2)]
 			}
 			switch r.Intn(4) {
 			case 0:
@@ -343,6 +350,12 @@ func (g *envTypeGen) genStruct(depth int, path, words []string) reflect.Type {
 					fwords = append([]string{}, words...)
 				}
 			}
+			if g.emptyTags && !f.Anonymous && r.Chance(12) {
+				// an explicitly EMPTY dials tag on a struct field: the tag is there and contributes no word, so the
+				// struct's leaves are named as if they belonged to the parent (not by the Go field name)
+				tagParts = []string{`dials:""`}
+				fwords = append([]string{}, words...)
+			}
 			saveNP, nLeaves := g.np, len(g.leaves)
 			if !f.Anonymous {
 				g.np = append(append([]string{}, g.np...), ns.name)
@@ -350,7 +363,12 @@ func (g *envTypeGen) genStruct(depth int, path, words []string) reflect.Type {
 			inner := g.genStruct(depth-1, fpath, fwords)
 			g.np = saveNP
 			if inner.NumField() == 0 {
-				continue
+				if !g.empties || f.Anonymous || !r.Chance(50) {
+					continue
+				}
+				// a struct without (exported) fields: no leaf, no flattened value - a parent that ENDS with it
+				// must work as if it were not there
+				inner = []reflect.Type{reflect.TypeOf(struct{}{}), reflect.TypeOf(struct{ hidden int }{})}[r.Intn(2)]
 			}
 			if g.embed {
 				flatName := strings.Join(append(append([]string{}, g.np...), ns.name), ".")
@@ -683,8 +701,11 @@ func checkC11(c *Ctx) {
 		"real Pointerify + env.Source.Value vs Lean model (translated field list with names and tags, variable names, value) and vs the documentation oracle. non-trivial: >= 2 variables set and a nested struct or tag; distinct = by request text"
 	n := c.scale(1500, 50000)
 	for i := 0; i < n; i++ {
-		g := &envTypeGen{r: r, used: map[string]bool{}}
+		g := &envTypeGen{r: r, used: map[string]bool{}, emptyTags: true}
 		T := g.genStruct(1+r.Intn(3), nil, nil)
+		if strings.Contains(T.String(), `dials:\"\"`) {
+			res.Count("types/with-an-empty-dials-tag-on-a-struct-field")
+		}
 		if T.NumField() == 0 || len(g.leaves) == 0 {
 			continue
 		}
